@@ -477,11 +477,11 @@ def evaluate__ceiling_and_floor_functions(self: XPathFunction, context: ta.Conte
         arg = self.number_value(arg)
 
     try:
-        if math.isnan(arg) or math.isinf(arg):
-            assert isinstance(arg, (int, float, decimal.Decimal))
+        if not isinstance(arg, (int, float, decimal.Decimal)):
+            raise TypeError(f"must be real number, not {type(arg).__name__!r}")
+        elif math.isnan(arg) or math.isinf(arg):
             return arg
 
-        assert isinstance(arg, (int, float, decimal.Decimal))
         if self.symbol == 'floor':
             return type(arg)(math.floor(arg))
         else:
@@ -507,10 +507,16 @@ def evaluate__round(self: XPathFunction, context: ta.ContextType = None) -> ta.O
 
     if isinstance(arg, float) and (math.isnan(arg) or math.isinf(arg)):
         return arg
+    elif isinstance(arg, str):
+        if isinstance(context, XPathSchemaContext):
+            return []
+        raise self.error('XPTY0004')
 
     try:
+        if not isinstance(arg, (int, float, decimal.Decimal)):
+            raise TypeError(f"must be real number, not {type(arg).__name__!r}")
+
         number = decimal.Decimal(arg)
-        assert isinstance(arg, (int, float, decimal.Decimal))
         if number > 0:
             return type(arg)(number.quantize(decimal.Decimal('1'), rounding='ROUND_HALF_UP'))
         else:
@@ -520,12 +526,7 @@ def evaluate__round(self: XPathFunction, context: ta.ContextType = None) -> ta.O
             return []
         raise self.error('FORG0006', err) from None
     except decimal.InvalidOperation:
-        if not isinstance(arg, str):
-            assert isinstance(arg, (int, float, decimal.Decimal))
-            return round(arg)
-        elif isinstance(context, XPathSchemaContext):
-            return []
-        raise self.error('XPTY0004') from None
+        return round(arg)
     except decimal.DecimalException as err:
         if isinstance(context, XPathSchemaContext):
             return []
